@@ -1,0 +1,121 @@
+// SPDX-License-Identifier: Apache-2.0
+
+//go:build verif
+
+// Contracts (//@ lines), specification functions and ghost built-ins for the
+// contract-based verification of this package. This file is only compiled with
+// the build tag "verif"; nothing here is reachable from production code.
+
+package pfcpiface
+
+// ---------------------------------------------------------------------------
+// Ghost built-ins. They are interpreted by the verifier (govc) and never run.
+// ---------------------------------------------------------------------------
+
+func implies(a, b bool) bool { return !a || b }
+
+func iff(a, b bool) bool { return a == b }
+
+// forall / exists take a function literal whose parameters are the bound variables.
+func forall[F any](f F) bool { panic("ghost builtin") }
+
+func exists[F any](f F) bool { panic("ghost builtin") }
+
+// old evaluates f in the pre-state of the function (or call) under contract.
+func old[T any](f func() T) T { panic("ghost builtin") }
+
+// has reports whether key k is present in map m.
+func has[K comparable, V any](m map[K]V, k K) bool { panic("ghost builtin") }
+
+// lo, hi and at address a slice by absolute positions in its backing array:
+// the elements of s are at(s, a) for lo(s) <= a < hi(s).
+func lo[T any](s []T) int { panic("ghost builtin") }
+
+func hi[T any](s []T) int { panic("ghost builtin") }
+
+func at[T any](s []T, a int) T { panic("ghost builtin") }
+
+// sameArray reports whether two slices share their backing array.
+func sameArray[T any](s, t []T) bool { panic("ghost builtin") }
+
+// gint reads a ghost integer (counter) by name.
+func gint(name string) int { panic("ghost builtin") }
+
+// typeIs reports whether the dynamic type of x is T.
+func typeIs[T any](x any) bool { panic("ghost builtin") }
+
+// nonNil reports whether a pointer, slice, or interface payload reference is non-nil.
+func nonNil[T any](x T) bool { panic("ghost builtin") }
+
+// ---------------------------------------------------------------------------
+// C17: port ranges are expanded exactly or refused
+// ---------------------------------------------------------------------------
+
+// specRuleMatches is the ternary-match semantics of one rule.
+func specRuleMatches(r portRangeTernaryRule, p uint16) bool {
+	return p&r.mask == r.port&r.mask
+}
+
+// specDenotes is the set of ports a portRange stands for: everything for the
+// full range and for the zero value, else [low, high] (empty when inverted).
+func specDenotes(pr portRange, p uint16) bool {
+	if pr.low == 0 && (pr.high == 0 || pr.high == 65535) {
+		return true
+	}
+
+	return pr.low <= p && p <= pr.high
+}
+
+// specPrefixMask: m is 1...10...0 (possibly all ones or all zeros).
+func specPrefixMask(m uint16) bool {
+	return (^m)&((^m)+1) == 0
+}
+
+func specCartMatches(r portRangeTernaryCartesianProduct, sp, dp uint16) bool {
+	return sp&r.srcMask == r.srcPort&r.srcMask && dp&r.dstMask == r.dstPort&r.dstMask
+}
+
+// specCovered: some rule of the slice matches p.
+func specCovered(rules []portRangeTernaryRule, p uint16) bool {
+	return exists(func(a int) bool { return lo(rules) <= a && a < hi(rules) && specRuleMatches(at(rules, a), p) })
+}
+
+func specCartCovered(rules []portRangeTernaryCartesianProduct, sp, dp uint16) bool {
+	return exists(func(a int) bool { return lo(rules) <= a && a < hi(rules) && specCartMatches(at(rules, a), sp, dp) })
+}
+
+//@ func (pr portRange) asTrivialTernaryMatch() (r portRangeTernaryRule, err error)
+//@   logical p uint16
+//@   ensures C17.trivial.refuse: (err != nil) <==> pr.isRangeMatch()
+//@   ensures C17.trivial.exact: err == nil ==> (specRuleMatches(r, p) <==> specDenotes(pr, p))
+
+//@ func (pr portRange) asComplexTernaryMatches(strategy RangeConversionStrategy) (rules []portRangeTernaryRule, err error)
+//@   logical p uint16
+//@   ensures C17.complex.refuse: (err != nil) <==> (pr.isRangeMatch() && (strategy == Exact && pr.Width() > 100 || strategy != Exact && strategy != Ternary))
+//@   ensures C17.complex.cover: err == nil ==> (specCovered(rules, p) <==> specDenotes(pr, p))
+//@   loop 1 invariant C17.exact.bounds: int(pr.low) <= port && (port <= int(pr.high)+1 || port == int(pr.low))
+//@   loop 1 invariant C17.exact.cover: specCovered(rules, p) <==> (int(pr.low) <= int(p) && int(p) < port)
+//@   loop 2 invariant C17.ternary.bounds: uint32(pr.low) <= port && (port <= uint32(pr.high)+1 || port == uint32(pr.low))
+//@   loop 2 invariant C17.ternary.cover: specCovered(rules, p) <==> (uint32(pr.low) <= uint32(p) && uint32(p) < port)
+
+// portMask: the widest aligned prefix block that starts at port and ends at or before end.
+//@ func (pr portRange) asComplexTernaryMatches#2(port uint16, end uint16) (mask uint16)
+//@   mode bv
+//@   requires port <= end
+//@   ensures C17.portmask.prefix: specPrefixMask(mask)
+//@   ensures C17.portmask.aligned: port&^mask == 0
+//@   ensures C17.portmask.inside: port|^mask <= end
+//@   loop 1 invariant C17.portmask.inv.test: testMask == -bit && bit&(bit-1) == 0
+//@   loop 1 invariant C17.portmask.inv.prefix: specPrefixMask(mask)
+//@   loop 1 invariant C17.portmask.inv.aligned: port&^mask == 0
+//@   loop 1 invariant C17.portmask.inv.inside: port|^mask <= end
+
+//@ func CreatePortRangeCartesianProduct(src portRange, dst portRange) (rules []portRangeTernaryCartesianProduct, err error)
+//@   logical sp uint16
+//@   logical dp uint16
+//@   ensures C17.cart.refuse: (err != nil) <==> (src.isRangeMatch() && dst.isRangeMatch() || src.isRangeMatch() && src.Width() > 100 || dst.isRangeMatch() && dst.Width() > 100)
+//@   ensures C17.cart.cover: err == nil ==> (specCartCovered(rules, sp, dp) <==> (specDenotes(src, sp) && specDenotes(dst, dp)))
+//@   loop 1 invariant C17.cart.src.idx: rangeidx+1 <= len(srcTernaryRules)
+//@   loop 1 invariant C17.cart.src.inv: specCartCovered(rules, sp, dp) <==> (exists a int :: lo(srcTernaryRules) <= a && a < lo(srcTernaryRules)+rangeidx+1 && specRuleMatches(at(srcTernaryRules, a), sp)) && specRuleMatches(dstTernary, dp)
+//@   loop 2 invariant C17.cart.dst.idx: rangeidx+1 <= len(dstTernaryRules)
+//@   loop 2 invariant C17.cart.dst.inv: specCartCovered(rules, sp, dp) <==> (exists a int :: lo(dstTernaryRules) <= a && a < lo(dstTernaryRules)+rangeidx+1 && specRuleMatches(at(dstTernaryRules, a), dp)) && specRuleMatches(srcTernary, sp)
